@@ -53,7 +53,8 @@ def fresh_module(h):
 
 def apply_op(h, m, env, op):
     name, kind, form = op
-    v = mk_value(h, env, kind)
+    # "same": the object the name already holds is stored again under it
+    v = mk_value(h, env, kind) if kind != "same" else m.namespace[name]
     if form == "setattr":
         setattr(m, name, v)
     elif form == "add_named":
@@ -155,9 +156,15 @@ def _history(hist):
         try:
             v = apply_op(h, m, env, op)
         except Exception as e:
-            return ("op raised: " + short_exc(e), step, model)
-        model[op[0]] = op[1]
-        objs[op[0]] = v
+            # add(v, name=n) of an object that already has a name is documented to be refused; the module must be left as it was
+            if not (op[1] == "same" and op[2] == "add_name_arg"):
+                return ("op raised: " + short_exc(e), step, model)
+            v = objs[op[0]]
+        if op[1] != "same":
+            model[op[0]] = op[1]
+            objs[op[0]] = v
+        elif v is not objs[op[0]]:
+            return ("re-storing an object returned another one", step, model)
         p = check_module(h, m, model, objs)
         if p:
             return (p, step, model)
@@ -292,7 +299,7 @@ def _bundle_history(hist):
     bd = h.Bundle(name="SubjectB")
     model, objs = {}, {}
     for step, (name, kind, form) in enumerate(hist):
-        v = h.Signal(width=2) if kind == "sig" else h.Port(width=2) if kind == "port" else inner()
+        v = h.Signal(width=2) if kind == "sig" else h.Port(width=2) if kind == "port" else inner() if kind != "same" else objs[name]
         try:
             if form == "setattr":
                 setattr(bd, name, v)
@@ -302,9 +309,11 @@ def _bundle_history(hist):
             else:
                 bd.add(v, name=name)
         except Exception as e:
-            return ("op raised: " + short_exc(e), step)
-        model[name] = kind
-        objs[name] = v
+            if not (kind == "same" and form == "add_name_arg"):
+                return ("op raised: " + short_exc(e), step)
+        if kind != "same":
+            model[name] = kind
+            objs[name] = v
         for n, k in model.items():
             o = objs[n]
             if bd.get(n) is not o or getattr(bd, n) is not o or bd.namespace.get(n) is not o:
@@ -349,8 +358,18 @@ def _bundle_history(hist):
     return (None, len(hist))
 
 
+def enabled(hist):
+    """`same` needs the name to be held already."""
+    held = set()
+    for n, k, f in hist:
+        if k == "same" and n not in held:
+            return False
+        held.add(n)
+    return True
+
+
 def run(ctx):
-    ops = [(n, k, f) for n in NAMES for k in MKINDS for f in FORMS]
+    ops = [(n, k, f) for n in NAMES for k in MKINDS + ["same"] for f in FORMS]
     # (1) BFS with state merging on the model state
     seen = {(): []}
     frontier = [((), [])]
@@ -361,7 +380,8 @@ def run(ctx):
         items = []
         for key, hist in frontier:
             for op in ops:
-                items.append(hist + [op])
+                if enabled(hist + [op]):
+                    items.append(hist + [op])
         res = ctx.pmap(_history, items, chunk=50)
         nxt = []
         for hist, (prob, step, model) in zip(items, res):
@@ -381,7 +401,7 @@ def run(ctx):
     ctx.fam("module_bfs_merged", states=len(seen), transitions=transitions, depth_reached=depth)
     # (2) un-merged: all histories of length <= 2 (3 thorough)
     L = 2 if ctx.quick else 3
-    items = [list(c) for n in range(1, L + 1) for c in itertools.product(ops, repeat=n)]
+    items = [list(c) for n in range(1, L + 1) for c in itertools.product(ops, repeat=n) if enabled(c)]
     res = ctx.pmap(_history, items, chunk=100)
     for hist, (prob, step, model) in zip(items, res):
         ctx.count(states=1, transitions=len(hist) + 1, traces_validated_against_impl=1)
@@ -398,9 +418,9 @@ def run(ctx):
             ctx.violation(dict(subject="module", kind="class_vs_procedural", what=prob[:40]), dict(sequence=s), prob)
     ctx.fam("class_vs_procedural", sequences=len(seqs))
     # (4) bundles
-    bops = [(n, k, f) for n in NAMES for k in BKINDS for f in FORMS]
+    bops = [(n, k, f) for n in NAMES for k in BKINDS + ["same"] for f in FORMS]
     LB = 3 if ctx.quick else 4
-    items = [list(c) for n in range(1, LB + 1) for c in itertools.product(bops, repeat=n)]
+    items = [list(c) for n in range(1, LB + 1) for c in itertools.product(bops, repeat=n) if enabled(c)]
     res = ctx.pmap(_bundle_history, items, chunk=200)
     for hist, (prob, step) in zip(items, res):
         ctx.count(states=1, transitions=len(hist), traces_validated_against_impl=1)
